@@ -92,6 +92,43 @@ func DictReal(s string) []byte {
 	return out
 }
 
+// DictNumberForm encodes v/unit as a DICT operand in one of its legal forms: 0 shortest integer,
+// 1 three-byte integer (28), 2 five-byte integer (29), 3 real with a fraction digit ("500.0"),
+// 4 real ending in the decimal point ("500."), 5 real with exponent ("5E2" style).  Forms that
+// cannot represent the value fall back: fractions are always reals, wide integers use form 2.
+func DictNumberForm(v, unit int64, form int) []byte {
+	if v%unit != 0 {
+		return DictNumber(v, unit, true)
+	}
+	n := int(v / unit)
+	switch form {
+	case 1:
+		if n >= -32768 && n <= 32767 {
+			return []byte{28, byte(n >> 8), byte(n)}
+		}
+		return DictInt5(n)
+	case 2:
+		return DictInt5(n)
+	case 3:
+		return DictReal(strconv.Itoa(n) + ".0")
+	case 4:
+		return DictReal(strconv.Itoa(n) + ".")
+	case 5:
+		e := 0
+		m := n
+		for m != 0 && m%10 == 0 {
+			m /= 10
+			e++
+		}
+		if e == 0 {
+			return DictReal(strconv.Itoa(n*10) + "E-1")
+		}
+		return DictReal(strconv.Itoa(m) + "E" + strconv.Itoa(e))
+	default:
+		return DictInt(n)
+	}
+}
+
 // DictNumber encodes v/unit as a DICT operand: an integer when whole (asReal forces a real).
 func DictNumber(v, unit int64, asReal bool) []byte {
 	if v%unit == 0 && !asReal {
